@@ -1,11 +1,12 @@
 SPECIFICATION Spec
 CONSTANTS
-  NPages = 3
+  NPages = 4
   StreamPats = {1}
+  Fanouts = {0, 2}
   MaxAdds = 2
   Kinds = {"text", "image", "pdf"}
-  Sels1 = {1, 2, 3, 4, 6}
-  Sels2 = {1, 2, 3}
+  Sels1 = {1, 2, 3, 5, 6}
+  Sels2 = {1, 3}
   SelsR = {1, 4}
   FreeDesc = FALSE
   FreeKind2 = FALSE
